@@ -5,6 +5,8 @@
 #include <cstdio>
 #include <cstdlib>
 #include <map>
+#include <memory>
+#include <new>
 #include <sstream>
 #include <string>
 #include <utility>
@@ -179,6 +181,25 @@ struct Case {
       (c).fail((sig), _b);                                   \
     }                                                        \
   } while (0)
+
+// Heap objects of over-aligned types (dispenso's ThreadPool, TaskSet, ConcurrentTaskSet ... are cache-line aligned):
+// plain new / std::make_unique do not honour that in C++14 builds, which would be the harness's own UB.
+template <typename T>
+struct AlignedDelete {
+  void operator()(T* p) const {
+    p->~T();
+    free(p);
+  }
+};
+template <typename T>
+using aligned_ptr = std::unique_ptr<T, AlignedDelete<T>>;
+template <typename T, typename... A>
+aligned_ptr<T> make_aligned(A&&... a) {
+  void* mem = nullptr;
+  if (posix_memalign(&mem, alignof(T) < sizeof(void*) ? sizeof(void*) : alignof(T), sizeof(T)) != 0)
+    abort();
+  return aligned_ptr<T>(::new (mem) T(std::forward<A>(a)...));
+}
 
 enum Flags {
   kE1 = 1,      // run under dsched; one case per child
